@@ -189,7 +189,7 @@ def run_tool(flavour, tool, schema_name, schema_text, perturb=None, args=(), cpu
         for k in range(int(pb.get("prior_runs", 0)) + 1):
             try:
                 p = subprocess.run(cmd, cwd=cwd, env=env, stdin=subprocess.DEVNULL, stdout=subprocess.PIPE, stderr=subprocess.PIPE,
-                                   timeout=cpu_s * 3 + 10, preexec_fn=_limits(cpu_s))
+                                   timeout=cpu_s * 30 + 120, preexec_fn=_limits(cpu_s))   # the CPU limit decides; the wall clock only guards against a child that sleeps
                 rc, out, err, timed = p.returncode, p.stdout, p.stderr, False
             except subprocess.TimeoutExpired as e:
                 rc, out, err, timed = -9, e.stdout or b"", e.stderr or b"", True
